@@ -37,12 +37,18 @@ theorem readVar_encVar (b rest : Bytes) (h : b.length < 256 ^ lenW) :
 
 theorem tombW_pos : 0 < tombW := by decide
 
-theorem tomb_lt (d : Bool) : (if d then 1 else 0) < 256 ^ tombW := by
-  have : 256 ^ 1 ≤ 256 ^ tombW := Nat.pow_le_pow_right (by decide) tombW_pos
+theorem tombMark_lt : tombMark < 256 ^ tombW := by decide
+
+@[simp] theorem zero_ne_tombMark : (0 = tombMark) = False := by
+  have : tombMark ≠ 0 := by decide
+  simp; omega
+
+theorem tomb_lt (d : Bool) : (if d then tombMark else 0) < 256 ^ tombW := by
+  have := tombMark_lt
   cases d <;> simp <;> omega
 
 theorem readTomb (d : Bool) (rest : Bytes) :
-    readNat tombW (encTomb d ++ rest) = some ((if d then 1 else 0), rest) :=
+    readNat tombW (encTomb d ++ rest) = some ((if d then tombMark else 0), rest) :=
   readNat_leBytes tombW _ (tomb_lt d) rest
 
 theorem readNats_encNats (w : Nat) (xs : List Nat) (h : ∀ x ∈ xs, x < 256 ^ w) (rest : Bytes) :
@@ -329,7 +335,7 @@ theorem blockOffsets_getD (off : Nat) (bs : List Block) (j : Nat) (hj : j < bs.l
       omega
 
 /-- the offsets written by `IndexOffset` are the start offsets of a decomposition into non-empty blocks -/
-theorem indexOffsets_blocks (es : List Entry) (items off : Nat) (hsz : off + (encEntries es).length < 4294967296) :
+theorem indexOffsets_blocks (es : List Entry) (items off : Nat) (hsz : off + (encEntries es).length < offMod) :
     ∃ pre bs, es = pre ++ blocksFlat bs ∧
       indexOffsets items off es = blockOffsets (off + (encEntries pre).length) bs ∧
       (items % spacing = 0 → pre = []) := by
@@ -341,7 +347,7 @@ theorem indexOffsets_blocks (es : List Entry) (items off : Nat) (hsz : off + (en
     by_cases hi : items % spacing = 0
     · refine ⟨[], (e, pre) :: bs, ?_, ?_, fun _ => rfl⟩
       · simp [blocksFlat, Block.ents, h1]
-      · have hoff : off % 4294967296 = off := Nat.mod_eq_of_lt (by omega)
+      · have hoff : off % offMod = off := Nat.mod_eq_of_lt (by omega)
         simp only [indexOffsets, hi, if_true, hoff, h2, blockOffsets, Block.ents, encEntries, List.length_nil,
           Nat.add_zero, List.length_append, List.singleton_append]
         congr 2; omega
@@ -677,7 +683,7 @@ theorem decode_encode (b : Bloom) (hs : b.Shape) (h1 : b.size < 256 ^ u32W) (h2 
 
 end Bloom
 
-theorem indexOffsets_lt (es : List Entry) (items off : Nat) : ∀ o ∈ indexOffsets items off es, o < 4294967296 := by
+theorem indexOffsets_lt (es : List Entry) (items off : Nat) : ∀ o ∈ indexOffsets items off es, o < offMod := by
   induction es generalizing items off with
   | nil => simp [indexOffsets]
   | cons e es ih =>
@@ -701,8 +707,9 @@ theorem decIndex_encIndex (offs : List Nat) (h : ∀ o ∈ offs, o < 256 ^ u32W)
     decIndex (encIndex offs ++ rest) = some (offs, rest) := by
   simp only [decIndex, encIndex, List.append_assoc, readNat_leBytes u32W _ hl, readNats_encNats u32W offs h rest]
 
-theorem u32_fits : 4294967296 ≤ 256 ^ u32W := by decide
-theorem u64_fits : 4294967296 ≤ 256 ^ u64W := by decide
+theorem offMod_pos : 0 < offMod := by decide
+theorem u32_fits : offMod ≤ 256 ^ u32W := by decide
+theorem u64_fits : offMod ≤ 256 ^ u64W := by decide
 theorem footer_len : u64W + u32W = Facts.sstFooterLen := by decide
 theorem bloom_params : 0 < Facts.bloomBits ∧ Facts.bloomBits < 256 ^ u32W ∧ Facts.bloomHashes < 256 ^ u32W := by decide
 
@@ -712,7 +719,7 @@ theorem bloomOf_shape (es : List Entry) : (bloomOf es).Shape ∧ (bloomOf es).si
   simpa [bloomOf, Bloom.new] using this
 
 /-- `loadFooter` on a written table recovers exactly the writer's in-memory metadata -/
-theorem loadFooter_encTable (es : List Entry) (hsz : (encEntries es).length < 4294967296) :
+theorem loadFooter_encTable (es : List Entry) (hsz : (encEntries es).length < offMod) :
     loadFooter (encTable es).length (encTable es) = some (metaOf es) := by
   obtain ⟨hshape, hsize, hhash⟩ := bloomOf_shape es
   have hb1 : (bloomOf es).size < 256 ^ u32W := by rw [hsize]; exact bloom_params.2.1
@@ -761,7 +768,7 @@ theorem lookup_none_of_bloom (es : List Entry) (key : Bytes) (h : (bloomOf es).m
   rw [hk, h] at this; cases this
 
 theorem get_encTable (es : List Entry) (hwf : ∀ e ∈ es, e.WF) (hs : SortedKeys es)
-    (hsz : (encEntries es).length < 4294967296) (key : Bytes) :
+    (hsz : (encEntries es).length < offMod) (key : Bytes) :
     get (metaOf es) (encEntries es).length (encTable es) key = GetRes.ofOption (lookup es key) := by
   unfold get
   by_cases hb : (bloomOf es).mightHave key = true
@@ -903,4 +910,288 @@ theorem writeRun_nonempty (target : Nat) (ht : 0 < target) (es : List Entry) (he
     ∀ c ∈ writeRun target es, c ≠ [] := by
   apply runLoop_nonempty _ _ ht
   exact ⟨rfl, fun _ _ => by simpa using hes⟩
+
+/-- a measure that every iteration of the `WriteRun` loop decreases: consuming an entry (−3+2), cutting (−1),
+flushing a non-empty chunk (≤ −2+1) -/
+def loopMeasure (cut : Option (List Entry × Nat)) (buf input : List Entry) : Nat :=
+  3 * input.length + 2 * (((cut.map (·.1)).getD []).length + buf.length) + (if cut.isNone then 1 else 0)
+
+theorem inv_consume_none {buf : List Entry} {size : Nat} {hv : Bool} {e : Entry} {rest : List Entry}
+    (h : LoopInv none buf size hv (e :: rest)) : LoopInv none (buf ++ [e]) (size + flushSize e) hv rest := by
+  obtain ⟨hsz, _⟩ := h
+  simp only at hsz
+  refine ⟨?_, fun _ _ => by simp⟩
+  simp only [sumSize_append, hsz]; simp [sumSize]
+
+theorem inv_cut {target : Nat} (ht : 0 < target) {buf : List Entry} {size : Nat} {hv : Bool} {input : List Entry}
+    (h : LoopInv none buf size hv input) (hge : ¬ size < target) : LoopInv (some (buf, size)) [] size hv input := by
+  obtain ⟨hsz, _⟩ := h
+  simp only at hsz
+  refine ⟨⟨hsz, by simp [sumSize, hsz], ?_⟩, fun _ h => by cases h⟩
+  intro h0; subst h0; simp [sumSize] at hsz; omega
+
+theorem inv_consume_some {chunk : List Entry} {cs : Nat} {buf : List Entry} {size : Nat} {hv : Bool} {e : Entry}
+    {rest : List Entry} (h : LoopInv (some (chunk, cs)) buf size hv (e :: rest)) :
+    LoopInv (some (chunk, cs)) (buf ++ [e]) (size + flushSize e) hv rest := by
+  obtain ⟨⟨hcs, hsz, hch⟩, _⟩ := h
+  refine ⟨⟨hcs, ?_, hch⟩, fun _ h => by cases h⟩
+  simp only [sumSize_append, hsz]; simp [sumSize]; omega
+
+theorem inv_flush {chunk : List Entry} {cs : Nat} {buf : List Entry} {size : Nat} {hv : Bool} {input : List Entry}
+    (h : LoopInv (some (chunk, cs)) buf size hv input) : LoopInv none buf (size - cs) true input := by
+  obtain ⟨⟨hcs, hsz, hch⟩, _⟩ := h
+  refine ⟨?_, fun h => by cases h⟩
+  simp only; omega
+
+theorem runLoop_none_succ (target maxSz fuel : Nat) (buf : List Entry) (size : Nat) (hv : Bool) (input : List Entry) :
+    runLoop target maxSz (fuel + 1) none buf size hv input =
+      if size < target then
+        match input with
+        | [] => if buf.isEmpty && hv then [] else [buf]
+        | e :: rest => runLoop target maxSz fuel none (buf ++ [e]) (size + flushSize e) hv rest
+      else runLoop target maxSz fuel (some (buf, size)) [] size hv input := by
+  rfl
+
+theorem runLoop_some_succ (target maxSz fuel : Nat) (chunk : List Entry) (cs : Nat) (buf : List Entry) (size : Nat)
+    (hv : Bool) (input : List Entry) :
+    runLoop target maxSz (fuel + 1) (some (chunk, cs)) buf size hv input =
+      if size < maxSz then
+        match input with
+        | [] => [chunk ++ buf]
+        | e :: rest => runLoop target maxSz fuel (some (chunk, cs)) (buf ++ [e]) (size + flushSize e) hv rest
+      else chunk :: runLoop target maxSz fuel none buf (size - cs) true input := by
+  rfl
+
+/-- with more fuel than the measure the result does not depend on the fuel: the out-of-fuel branch is dead -/
+theorem runLoop_fuel_succ (target maxSz : Nat) (ht : 0 < target) (fuel : Nat) (cut : Option (List Entry × Nat))
+    (buf : List Entry) (size : Nat) (hv : Bool) (input : List Entry) (hinv : LoopInv cut buf size hv input)
+    (hμ : loopMeasure cut buf input < fuel) :
+    runLoop target maxSz (fuel + 1) cut buf size hv input = runLoop target maxSz fuel cut buf size hv input := by
+  induction fuel generalizing cut buf size hv input with
+  | zero => omega
+  | succ f ih =>
+    cases cut with
+    | none =>
+      conv => lhs; rw [runLoop_none_succ]
+      conv => rhs; rw [runLoop_none_succ]
+      by_cases hlt : size < target
+      · simp only [hlt, if_true]
+        cases input with
+        | nil => rfl
+        | cons e rest =>
+          apply ih _ _ _ _ _ (inv_consume_none hinv)
+          simp only [loopMeasure, List.length_append, List.length_cons] at hμ ⊢
+          simp at hμ ⊢; omega
+      · simp only [hlt, if_false]
+        apply ih _ _ _ _ _ (inv_cut ht hinv hlt)
+        simp only [loopMeasure] at hμ ⊢
+        simp at hμ ⊢; omega
+    | some c =>
+      obtain ⟨chunk, cs⟩ := c
+      conv => lhs; rw [runLoop_some_succ]
+      conv => rhs; rw [runLoop_some_succ]
+      by_cases hlt : size < maxSz
+      · simp only [hlt, if_true]
+        cases input with
+        | nil => rfl
+        | cons e rest =>
+          apply ih _ _ _ _ _ (inv_consume_some hinv)
+          simp only [loopMeasure] at hμ ⊢
+          simp at hμ ⊢; omega
+      · simp only [hlt, if_false]
+        congr 1
+        apply ih _ _ _ _ _ (inv_flush hinv)
+        have hch : chunk ≠ [] := hinv.1.2.2
+        have : 0 < chunk.length := List.length_pos_iff.mpr hch
+        simp only [loopMeasure] at hμ ⊢
+        simp at hμ ⊢; omega
+
+theorem runLoop_fuel_add (target maxSz : Nat) (ht : 0 < target) (fuel k : Nat) (cut : Option (List Entry × Nat))
+    (buf : List Entry) (size : Nat) (hv : Bool) (input : List Entry) (hinv : LoopInv cut buf size hv input)
+    (hμ : loopMeasure cut buf input < fuel) :
+    runLoop target maxSz (fuel + k) cut buf size hv input = runLoop target maxSz fuel cut buf size hv input := by
+  induction k with
+  | zero => rfl
+  | succ k ih => rw [← Nat.add_assoc, runLoop_fuel_succ target maxSz ht (fuel + k) _ _ _ _ _ hinv (by omega), ih]
+
+theorem writeRun_init_inv (es : List Entry) (hes : es ≠ []) : LoopInv none [] 0 false es :=
+  ⟨rfl, fun _ _ => by simpa using hes⟩
+
+theorem writeRun_fuel_independent (target : Nat) (ht : 0 < target) (es : List Entry) (k : Nat) :
+    runLoop target (maxBuffer target) (3 * es.length + 3 + k) none [] 0 false es = writeRun target es := by
+  by_cases hes : es = []
+  · subst hes
+    unfold writeRun
+    simp only [List.length_nil, Nat.mul_zero, Nat.zero_add]
+    rw [show 3 + k = (k + 2) + 1 by omega, runLoop_none_succ, runLoop_none_succ]
+    simp [ht]
+  · exact runLoop_fuel_add target _ ht _ k _ _ _ _ _ (writeRun_init_inv es hes) (by simp [loopMeasure])
+
+/-- every table but the last holds at least `target` and less than `target + M` (flush-size) bytes; the last one
+less than `bound` -/
+def SizesOk (target M bound : Nat) : List (List Entry) → Prop
+  | [] => True
+  | [c] => sumSize c < bound
+  | c :: d :: rest => (target ≤ sumSize c ∧ sumSize c < target + M) ∧ SizesOk target M bound (d :: rest)
+
+theorem sizesOk_cons {target M bound : Nat} {c : List Entry} {R : List (List Entry)}
+    (h1 : target ≤ sumSize c) (h2 : sumSize c < target + M) (hb : target + M ≤ bound) (hR : SizesOk target M bound R) :
+    SizesOk target M bound (c :: R) := by
+  cases R with
+  | nil => exact Nat.lt_of_lt_of_le h2 hb
+  | cons d rest => exact ⟨⟨h1, h2⟩, hR⟩
+
+def SzInv (target maxSz M : Nat) (cut : Option (List Entry × Nat)) (buf : List Entry) (size : Nat) (input : List Entry) : Prop :=
+  (match cut with
+   | none => size = sumSize buf ∧ size < target + M
+   | some (chunk, cs) => cs = sumSize chunk ∧ target ≤ cs ∧ cs < target + M ∧ size = cs + sumSize buf ∧ size < maxSz + M) ∧
+  ∀ e ∈ input, flushSize e ≤ M
+
+theorem runLoop_sizes (target maxSz M : Nat) (ht : 0 < target) (h1 : target ≤ maxSz) (h2 : maxSz ≤ 2 * target)
+    (fuel : Nat) (cut : Option (List Entry × Nat)) (buf : List Entry) (size : Nat) (hv : Bool) (input : List Entry)
+    (hinv : SzInv target maxSz M cut buf size input)
+    (hμ : loopMeasure cut buf input < fuel) (hch : ∀ c cs, cut = some (c, cs) → c ≠ []) :
+    SizesOk target M (maxSz + M) (runLoop target maxSz fuel cut buf size hv input) := by
+  induction fuel generalizing cut buf size hv input with
+  | zero => omega
+  | succ f ih =>
+    cases cut with
+    | none =>
+      obtain ⟨⟨hsz, hlt'⟩, hM⟩ := hinv
+      rw [runLoop_none_succ]
+      by_cases hlt : size < target
+      · simp only [hlt, if_true]
+        cases input with
+        | nil =>
+          by_cases hb : (buf.isEmpty && hv) = true
+          · simp only [hb, if_true]; trivial
+          · simp only [hb, Bool.false_eq_true, if_false]
+            show sumSize buf < maxSz + M
+            omega
+        | cons e rest =>
+          have he : flushSize e ≤ M := hM e (by simp)
+          apply ih
+          · refine ⟨⟨?_, ?_⟩, fun x hx => hM x (by simp [hx])⟩
+            · simp only [sumSize_append, hsz]; simp [sumSize]
+            · omega
+          · simp only [loopMeasure] at hμ ⊢
+            simp at hμ ⊢; omega
+          · intro c cs h; cases h
+      · simp only [hlt, if_false]
+        have hne : buf ≠ [] := by
+          intro h0; subst h0; simp [sumSize] at hsz; omega
+        apply ih
+        · exact ⟨⟨hsz, by omega, hlt', by simp [sumSize], by omega⟩, hM⟩
+        · simp only [loopMeasure] at hμ ⊢
+          simp at hμ ⊢; omega
+        · intro c cs h
+          simp only [Option.some.injEq, Prod.mk.injEq] at h
+          rw [← h.1]; exact hne
+    | some c =>
+      obtain ⟨chunk, cs⟩ := c
+      obtain ⟨⟨hcs, hge, hlt', hsz, hbd⟩, hM⟩ := hinv
+      have hchunk : chunk ≠ [] := hch chunk cs rfl
+      rw [runLoop_some_succ]
+      by_cases hlt : size < maxSz
+      · simp only [hlt, if_true]
+        cases input with
+        | nil =>
+          show sumSize (chunk ++ buf) < maxSz + M
+          rw [sumSize_append]; omega
+        | cons e rest =>
+          have he : flushSize e ≤ M := hM e (by simp)
+          apply ih
+          · refine ⟨⟨hcs, hge, hlt', ?_, by omega⟩, fun x hx => hM x (by simp [hx])⟩
+            simp only [sumSize_append, hsz]; simp [sumSize]; omega
+          · simp only [loopMeasure] at hμ ⊢
+            simp at hμ ⊢; omega
+          · exact hch
+      · simp only [hlt, if_false]
+        apply sizesOk_cons (by omega) (by omega) (by omega)
+        apply ih
+        · exact ⟨⟨by omega, by omega⟩, hM⟩
+        · have : 0 < chunk.length := List.length_pos_iff.mpr hchunk
+          simp only [loopMeasure] at hμ ⊢
+          simp at hμ ⊢; omega
+        · intro c cs h; cases h
+
+theorem factor_bounds : Facts.sstMaxFactorDen ≤ Facts.sstMaxFactorNum ∧
+    Facts.sstMaxFactorNum ≤ 2 * Facts.sstMaxFactorDen ∧ 0 < Facts.sstMaxFactorDen := by decide
+
+theorem maxBuffer_bounds (target : Nat) : target ≤ maxBuffer target ∧ maxBuffer target ≤ 2 * target := by
+  obtain ⟨h1, h2, h3⟩ := factor_bounds
+  unfold maxBuffer
+  constructor
+  · rw [Nat.le_div_iff_mul_le h3]; exact Nat.mul_le_mul_left _ h1
+  · apply Nat.div_le_of_le_mul
+    calc target * Facts.sstMaxFactorNum ≤ target * (2 * Facts.sstMaxFactorDen) := Nat.mul_le_mul_left _ h2
+      _ = Facts.sstMaxFactorDen * (2 * target) := by
+        rw [Nat.mul_left_comm, Nat.mul_comm target]
+        exact Nat.mul_left_comm _ _ _
+
+theorem writeRun_sizesOk (target : Nat) (ht : 0 < target) (es : List Entry) (M : Nat) (hM : ∀ e ∈ es, flushSize e ≤ M) :
+    SizesOk target M (maxBuffer target + M) (writeRun target es) := by
+  obtain ⟨h1, h2⟩ := maxBuffer_bounds target
+  apply runLoop_sizes target _ M ht h1 h2
+  · exact ⟨⟨rfl, by omega⟩, hM⟩
+  · simp [loopMeasure]
+  · intro c cs h; cases h
+
+theorem writeRun_pairwise (target : Nat) (es : List Entry) (hs : SortedKeys es) :
+    (writeRun target es).Pairwise (fun c d => ∀ a ∈ c, ∀ b ∈ d, Bytes.lt a.key b.key = true) ∧
+    ∀ c ∈ writeRun target es, SortedKeys c := by
+  have h : SortedKeys (writeRun target es).flatten := by rw [writeRun_flatten]; exact hs
+  have := List.pairwise_flatten.mp h
+  exact ⟨this.2, this.1⟩
+
+theorem writeRun_doc_ranges' (target : Nat) (ht : 0 < target) (es : List Entry) (hes : es ≠ []) (hs : SortedKeys es) :
+    (writeRun target es).Pairwise (fun c d => Bytes.lt (docOf c).endKey (docOf d).startKey = true) := by
+  have hne := writeRun_nonempty target ht es hes
+  refine List.Pairwise.imp_of_mem ?_ (writeRun_pairwise target es hs).1
+  intro c d hc hd h
+  have hc' := hne c hc
+  have hd' := hne d hd
+  obtain ⟨x, hx⟩ : ∃ x, c.getLast? = some x := by
+    cases hl : c.getLast? with
+    | none => exact absurd (List.getLast?_eq_none_iff.mp hl) hc'
+    | some x => exact ⟨x, rfl⟩
+  obtain ⟨y, hy⟩ : ∃ y, d.head? = some y := by
+    cases d with
+    | nil => exact absurd rfl hd'
+    | cons y _ => exact ⟨y, rfl⟩
+  simp only [docOf, hx, hy, Option.map_some, Option.getD_some]
+  exact h x (List.mem_of_getLast? hx) y (List.mem_of_head? hy)
+
+/-- `SizesOk` spelled out: all tables but the last are within `[target, target + M)`, the last below the bound -/
+theorem sizesOk_iff {target M bound : Nat} (R : List (List Entry)) (h : SizesOk target M bound R) :
+    (∀ c ∈ R.dropLast, target ≤ sumSize c ∧ sumSize c < target + M) ∧
+    (∀ c, R.getLast? = some c → sumSize c < bound) := by
+  induction R with
+  | nil => simp
+  | cons c R ih =>
+    cases R with
+    | nil =>
+      refine ⟨by simp, ?_⟩
+      intro x hx; simp at hx; subst hx; exact h
+    | cons d rest =>
+      obtain ⟨hc, hrest⟩ := h
+      obtain ⟨ih1, ih2⟩ := ih hrest
+      refine ⟨?_, ?_⟩
+      · intro x hx
+        simp only [List.dropLast_cons_cons, List.mem_cons] at hx
+        rcases hx with rfl | hx
+        · exact hc
+        · exact ih1 x hx
+      · intro x hx
+        apply ih2
+        simpa [List.getLast?_cons_cons] using hx
+
+/-- the entry overhead constant is the sum of the field widths of a put row -/
+theorem entry_overhead_eq : Facts.sstEntryOverhead = lenW + u64W + tombW + lenW := by decide
+
+/-- the bytes of a row never exceed its flush size (puts: equal; tombstones: no value length) -/
+theorem encEntry_length_le (e : Entry) : (encEntry e).length ≤ Facts.sstEntryOverhead + e.key.length + e.val.length := by
+  rw [entry_overhead_eq]
+  simp only [encEntry, encVar, encTomb, List.length_append, leBytes_length]
+  split <;> simp [leBytes_length] <;> omega
 end Rxn.Sst
